@@ -13,6 +13,9 @@ REPO = os.path.realpath(os.environ.get("RV_VERIF_REPO", "/repo"))
 SRC = os.path.join(REPO, "src", "python")
 FIXTURES = os.path.join(REPO, "tests", "files")
 VERIF = os.path.dirname(os.path.dirname(os.path.abspath(__file__)))
+# where evidence/ and replays/ are written; overridden for seeded-fault runs so that they never
+# overwrite the evidence of the real tree
+OUT = os.environ.get("RV_VERIF_OUT", VERIF)
 
 _done = False
 
